@@ -68,8 +68,8 @@ def judge(ctx, rec, model, followed, case, where):
         return False
     same = model is not None and list(model['got']) == got
     if got == want:
-        if rec.get('raised'):
-            ctx.mismatch('C25:%s:inject-raised-on-accepted-operation' % where, 'the node accepted counters %s but inject() raised' % got, case)
+        if rec.get('raised'):      # not part of the property: noted, not judged
+            ctx.extra['inject_raised_although_node_accepted'] = ctx.extra.get('inject_raised_although_node_accepted', 0) + 1
         return same
     # the property is violated for this injection: got # chain counter + pending + 1..
     if rec.get('behind_refused'):
